@@ -558,9 +558,14 @@ def short(b, n=300):
     return b if len(b) <= n else b[:n // 2] + b' ...(%d bytes)... ' % (len(b) - n) + b[-n // 2:]
 
 
+def shortl(l, n=40):
+    l = list(l)
+    return l if len(l) <= n else l[:n // 2] + ['... %d more ...' % (len(l) - n)] + l[-n // 2:]
+
+
 def describe(r):
-    return dict(replies=[list(o[0]) for o in r['outs']], fin=FIN_NAMES.get(r['fin'], r['fin']), sent=short(r['sent'], 600),
-                trace=[[short(x) if isinstance(x, bytes) else x for x in e] for e in r['trace']], exc=r.get('exc'))
+    return dict(replies=shortl([list(o[0]) for o in r['outs']]), fin=FIN_NAMES.get(r['fin'], r['fin']), sent=short(r['sent'], 600),
+                trace=shortl([[short(x) if isinstance(x, bytes) else x for x in e] for e in r['trace']]), exc=r.get('exc'))
 
 
 def key_for(case, base):
@@ -649,8 +654,9 @@ def check_stream(ctx, case, kind, every_cut_upto=60, nrandom=3, model_all=True):
             else:
                 base_key, what = 'unexpected-behaviour', 'replies/callbacks differ from the protocol reading: replies %r expected %r' % (got_reps, want_reps)
             ctx.fail(key_for(case, base_key), case_json(case, name),
-                     dict(what=what, got=describe(r), expected=dict(replies=list(want_reps), fin=FIN_NAMES[want_fin],
-                                                                    trace=[[short(x) if isinstance(x, bytes) else x for x in e] for e in want_tr])))
+                     dict(what=what if len(what) < 1500 else what[:1500] + ' ...', got=describe(r),
+                          expected=dict(replies=shortl(want_reps), fin=FIN_NAMES[want_fin],
+                                        trace=shortl([[short(x) if isinstance(x, bytes) else x for x in e] for e in want_tr]))))
             break
     # correspondence with the model (incremental model on the very chunks)
     todo = results if model_all is True else results[:int(model_all)]
